@@ -40,9 +40,17 @@ def classify(rec):
 
 def gen_port(rng, idx, used):
     """One (port name, description, hardware id, kind)."""
-    c = rng.randrange(12)
+    c = rng.randrange(13)
     name = rng.choice(NAMES)
     n = idx + rng.choice([0, 0, 10, 1410])
+    if c == 12:
+        # another field order in the hardware id (pyserial builds it from what the OS reports): LOCATION
+        # before SER, or SER last with nothing after it - whatever name the library reports for such a
+        # board, looking that name up must find the board again
+        hwid = rng.choice(("%s LOCATION=4-%d SER=%s", "%s LOCATION=1-1.%d SER=%s"))  % (VIDPID, idx, name.replace(" ", "_"))
+        if rng.random() < 0.5:
+            return ("COM%d" % (3 + n), "USB Serial Device (COM%d)" % (3 + n), hwid, "ebb windows pyserial3")
+        return ("/dev/ttyACM%d" % idx, "EiBotBoard", hwid, "ebb unnamed")
     if c == 0:
         return ("/dev/cu.usbmodem%d" % (1400 + n), "EiBotBoard", "%s SER=%s LOCATION=20-%d" % (VIDPID, rng.choice(["", "Unnamed", name]), idx), "ebb unnamed")
     if c == 1:
